@@ -74,7 +74,8 @@ def gen_project(rng, force=None):
     slow = rng.random() < 0.35
     if slow:
         lines.append('resource slow "Slow" { rate ' + rng.choice(RATES) + " efficiency 0.1 }")
-    budget = [rng.randint(1, 6)]
+    # mostly small projects; one in eight has 10-14 tasks (row order across two-digit sibling numbers)
+    budget = [rng.randint(1, 6) if rng.random() < 0.875 else rng.randint(10, 14)]
     counter = [0]
 
     def alloc():
